@@ -55,7 +55,7 @@ class ModelProc:
             self.p.kill()
 
 class ImplProc:
-    def __init__(self, flavour: str, cache: str, ext: str, link_to=False, env=None, timeout_ms=20000, wrapper=None):
+    def __init__(self, flavour: str, cache: str, ext: str, link_to=False, env=None, timeout_ms=20000, wrapper=None, cwd=None):
         exe = f"{IMPL}/bin/cch-{flavour}" + ("-link_to" if link_to else "")
         e = dict(os.environ)
         e["CCH_TIMEOUT_MS"] = str(timeout_ms)
@@ -64,7 +64,7 @@ class ImplProc:
         argv = (wrapper or []) + [exe, cache, ext]
         self.flavour = flavour
         self.p = subprocess.Popen(argv, stdin=subprocess.PIPE, stdout=subprocess.PIPE,
-                                  stderr=subprocess.DEVNULL, env=e, bufsize=0)
+                                  stderr=subprocess.DEVNULL, env=e, bufsize=0, cwd=cwd)
         self.rf = os.fdopen(self.p.stdout.fileno(), "rb", buffering=1 << 16, closefd=False)
         self.dead = False
 
